@@ -199,3 +199,25 @@ for cls in ('Initiator', 'Target'):
                       ('post.failed', 'implies(call_ret("C07/%s.activate.anybytes") is None, '
                                       'result == False and self.mac is None)' % cls)],
              raises={}, loops=SIMPLE_LOOPS)
+
+# the real activate() of both NFC-DEP roles against a peer that sends anything where the attribute request /
+# response is expected: general bytes or None come back, nothing is raised (reserved bits of the PP octet, short
+# or oversized frames, wrong response codes included)
+_PCNT = lambda: Obj(DEP + 'DataExchangeProtocol.Counter', _partial=False,    # noqa
+                    sent=DictOf({}, default_factory=True), rcvd=DictOf({}, default_factory=True))
+contract(DEP + 'Initiator.activate', 'C07',
+         dict(self=Obj(DEP + 'Initiator', _partial=False, _acm=False, pcnt=_PCNT(),
+                       clf=Obj('models.dep_models:AnyTargetClf', _partial=False)),
+              target=Obj('nfc.clf:RemoteTarget', _partial=False, _brty_send='106A', _brty_recv='106A',
+                         sel_res=Const(bytearray(b'\x40')), sens_res=Const(bytearray(b'\x01\x01')),
+                         sdd_res=Const(bytearray(b'\x08\x01\x02\x03'))),
+              options=DictOf({'did': Opt(Int(1, 14)), 'nad': Opt(Int(0, 255)), 'brs': Int(0, 2), 'lri': Int(0, 3),
+                              'gbi': Bytes(0, 48)})),
+         name='C07/Initiator.activate.anypeer', raises={},
+         ensures=[('post.gb', 'result is None or len(result) >= 0')])
+contract(DEP + 'Target.activate', 'C07',
+         dict(self=Obj(DEP + 'Target', _partial=False, pcnt=_PCNT(), miu=None, did=None, nad=None, gbi=None,
+                       pni=None, rwt=None, clf=Obj('models.dep_models:AnyInitiatorClf', _partial=False)),
+              timeout=None, options=DictOf({'gbt': Bytes(0, 47), 'lrt': Int(0, 3), 'rwt': Int(0, 14)})),
+         name='C07/Target.activate.anypeer', raises={},
+         ensures=[('post.gb', 'result is None or len(result) >= 0')])
